@@ -7,5 +7,11 @@ def MAX_DIAL_ATTEMPTS : Nat := 16
 def MAX_DNS_LOOKUPS : Nat := 32
 /-- `transports/dns/src/lib.rs`: `const MAX_TXT_RECORDS: usize = 16;` -/
 def MAX_TXT_RECORDS : Nat := 16
+/-- `transports/noise/src/io/framed.rs`: `const MAX_NOISE_MSG_LEN: usize = 65535;` -/
+def NOISE_MAX_NOISE_MSG_LEN : Nat := 65535
+/-- `transports/noise/src/io/framed.rs`: `const EXTRA_ENCRYPT_SPACE: usize = 1024;` -/
+def NOISE_EXTRA_ENCRYPT_SPACE : Nat := 1024
+/-- `transports/noise/src/io/framed.rs`: `pub(crate) const MAX_FRAME_LEN: usize = MAX_NOISE_MSG_LEN - EXTRA_ENCRYPT_SPACE;` -/
+def NOISE_FRAME_LEN_IS_MSG_MINUS_EXTRA_U16 : Nat := 16
 
 end Gen
